@@ -51,12 +51,29 @@ def run(ctx):
             by = {wn: val for wn, val, _ in sites if wn in (True, False)}
             if True in by and False in by and by[True] != by[False]:
                 flags[name] = by[True]  # the value the flag has when self.p is None
+        # `fixed_p = False` up front, `else: fixed_p = True` in the test: the flag speaks about the caller's value only AFTER the test
+        # has run - a use that the test does not dominate (an exception handler entered before it) sees the preset
+        flag_needs_dom = {}
+        presets = {}
+        for name, sites in flag_sites.items():
+            if name in flags:
+                continue
+            by = {wn: val for wn, val, _ in sites if wn in (True, False)}
+            ifs_ = [s_[2] for s_ in sites if s_[0] in (True, False)]
+            pre = [x for x in walk_no_nested(fi.node) if isinstance(x, ast.Assign) and any(isinstance(t, ast.Name) and t.id == name for t in x.targets) and isinstance(x.value, ast.Constant) and isinstance(x.value.value, bool) and not any(any(x is y for y in ast.walk(i_)) for i_ in ifs_)]
+            if len(by) == 1 and pre and all(x.value.value == pre[0].value.value for x in pre):
+                (wn, val), = by.items()
+                if val != pre[0].value.value:
+                    # value of the flag when self.p is None
+                    flags[name] = pre[0].value.value if wn is False else val
+                    flag_needs_dom[name] = ifs_[0]
+                    presets[name] = {id(x) for x in pre}
         if not flags:
             raise AnalysisError(f"{f}: 'was supplied' flag for `{p}` not recognised (idiom changed)")
         # a flag must not be re-assigned elsewhere
         for name in flags:
             defining = {id(s_[2]) for s_ in flag_sites[name]}
-            others = [x for x in walk_no_nested(fi.node) if isinstance(x, ast.Assign) and any(isinstance(t, ast.Name) and t.id == name for t in x.targets) and id(x) not in defining and not any(id(i) in defining for i in v.enclosing_all(x, (ast.If,)))]
+            others = [x for x in walk_no_nested(fi.node) if isinstance(x, ast.Assign) and any(isinstance(t, ast.Name) and t.id == name for t in x.targets) and id(x) not in defining and id(x) not in presets.get(name, ()) and not any(id(i) in defining for i in v.enclosing_all(x, (ast.If,)))]
             res.check(not others, "E-FIXED", f, norm(others[0]) if others else f"{name} = (self.{p} is [not] None)", p + ":flag", f"`{name}` is re-assigned outside the `self.{p} is None` test", loc(fi, others[0] if others else fi.node))
 
         def not_supplied_at(node) -> bool:
@@ -71,6 +88,9 @@ def run(ctx):
                     if isinstance(atom, ast.Name) and atom.id in flags:
                         lab = _implied_branch(n.test, atom, flags[atom.id])
                         if lab and v.cfg.branch_dominated(tid, lab, nid):
+                            dom_if = flag_needs_dom.get(atom.id)
+                            if dom_if is not None and not v.cfg.dominates(v.cfg.by_ast[id(dom_if.test)], tid):
+                                continue  # the flag still holds its preset on some path to this test
                             return True
                     if isinstance(atom, ast.Compare) and norm(atom) in (f"self.{p} is None", f"self.{p} is not None"):
                         lab = _implied_branch(n.test, atom, norm(atom).endswith("is None"))
